@@ -143,8 +143,20 @@ def run_phase_file(src, dst, tag, samples, phase_inputs, reference=False, writer
 def write_scenario_vcf(path, sc):
     from wv import world
     fmt_keys = [k for k in ("GT", "PS", "HP", "PQ", "GQ", "DP", "GL", "PL", "XX") if k not in sc.get("nodef", [])]
-    return world.write_vcf(path, sc["samples"], [("chr1", 100000), ("chr2", 100000)], sc["recs"], fmt_keys=fmt_keys,
-                           extra_header=sc.get("extra_header", []))
+    recs, extra = sc["recs"], list(sc.get("extra_header", []))
+    if sc.get("info_clash"):
+        # INFO and FORMAT ids are separate namespaces: site-level INFO fields that merely share the names HP / PS / PQ
+        # (homopolymer run length, population size, site quality) are not phase information
+        extra += ['##INFO=<ID=HP,Number=1,Type=Integer,Description="Homopolymer run length">',
+                  '##INFO=<ID=PS,Number=1,Type=Integer,Description="Population size">',
+                  '##INFO=<ID=PQ,Number=1,Type=Float,Description="Site quality">']
+        recs = []
+        for k, r in enumerate(sc["recs"]):
+            add = ["HP=%d" % (1 + k % 7), "PS=%d" % (2 + k), "PQ=%d.5" % (30 + k)][: 1 + k % 3]
+            info = r.get("info", ".")
+            recs.append(dict(r, info=";".join(([] if info in (".", "") else [info]) + add)))
+    return world.write_vcf(path, sc["samples"], [("chr1", 100000), ("chr2", 100000)], recs, fmt_keys=fmt_keys,
+                           extra_header=extra)
 
 
 def hist_consts(ns, faithful="TRUE", clear_all="TRUE", depth=0, indel="{}", never="{}", snvs="{FALSE, TRUE}"):
@@ -282,6 +294,8 @@ def random_file(rng, i):
     sc = {"kind": "random", "samples": [f"s{k}" for k in range(ns)], "recs": recs, "hist": [{"op": "U"}, {"op": "U"}]}
     if ns and rng.random() < 0.35:
         sc["hist"] = [{"op": "U"}, {"op": "S", "seed": rng.randrange(10 ** 6)}, {"op": "U"}]
+    if rng.random() < 0.2:
+        sc["info_clash"] = True
     if gtonly:
         sc["nodef"] = ["PS", "HP", "PQ"]
     elif ns and rng.random() < 0.15:  # PS declared with type String (seen in the wild, cf. tests/data/string_typed_ps_tag.vcf)
